@@ -3,6 +3,7 @@
 // The extracted Coq model (extract/driver) reads these lines and reports disagreements.
 mod fam_lex;
 mod fam_pk;
+mod fam_tree;
 mod fam_symtab;
 mod fam_types;
 mod util;
@@ -19,6 +20,7 @@ fn main() {
         "symtab" => fam_symtab::run(rest),
         "lex" => fam_lex::run(rest),
         "pk" => fam_pk::run(rest),
+        "tree" => fam_tree::run(rest),
         f => {
             eprintln!("unknown family {f}");
             std::process::exit(2);
